@@ -7,7 +7,8 @@ VERIF = os.path.abspath(os.path.join(os.path.dirname(os.path.abspath(__file__)),
 # --------------------------------------------------------------------------- TLC engines
 CORE_OPS = {"new", "clone", "clonef", "drop", "set", "clear", "mark", "collect", "unwrap", "fagain", "put", "take"}
 BASE = dict(N=3, NS=2, NP=0, NW=0, FIN=True, WEAK=True, DBG=True, MAXRC=100, MaxRoots=2, MaxWRoots=0,
-            MaxOps=6, MaxFaults=0, MaxTraceK=0, BUG_STALE_TC=False, BUG_NESTED_FLAGS=False, OPS=CORE_OPS)
+            MaxOps=6, MaxFaults=0, MaxTraceK=0, BUG_STALE_TC=False, BUG_NESTED_FLAGS=False, OPS=CORE_OPS,
+            AUTOF=True, AUTO0=False, SZ=152)
 
 
 def _eng(name, quick, thorough, builds, **kw):
@@ -33,6 +34,13 @@ ENGINES = {
                  dict(MaxOps=8), {'quick': ['all-dev'], 'thorough': ['all-dev', 'all-rel', 'nofin-rel']}),
     'weaknofin': _eng('weaknofin', dict(N=2, NS=1, NW=1, FIN=False, MaxOps=6, MaxWRoots=2, MaxFaults=1, MaxTraceK=2, OPS={"new", "clone", "drop", "set", "collect", "unwrap", "downgrade", "upgrade", "upgradef", "dropw", "setw"}),
                  dict(MaxOps=7), {'quick': ['nofin-rel'], 'thorough': ['nofin-dev', 'nofin-rel']}),
+    # automatic collections started by Cc::new, threshold feedback loop, configuration changes, panics in automatic collections
+    'auto': _eng('auto', dict(N=3, NS=1, AUTO0=True, MaxOps=5, MaxFaults=1, MaxTraceK=2, OPS={"new", "clone", "drop", "set", "collect", "setcfg", "put"}),
+                 dict(MaxOps=7), {'quick': ['all-dev'], 'thorough': ['all-dev', 'all-rel']}),
+    # new_cyclic: closures that save / probe the Weak, allocate, collect, panic; automatic collection due at the call
+    'cyc': _eng('cyc', dict(N=2, NS=1, NW=1, AUTO0=True, MaxOps=5, MaxFaults=1, MaxTraceK=1, MaxWRoots=2,
+                            OPS={"newcyc", "new", "drop", "clone", "put", "collect", "upgrade", "dropw", "upgradef", "unwrap"}),
+                dict(MaxOps=7), {'quick': ['all-dev'], 'thorough': ['all-dev', 'all-rel']}),
     'faultnofin': _eng('faultnofin', dict(FIN=False, MaxOps=5, MaxFaults=1, MaxTraceK=3, OPS=CORE_OPS - {"fagain"}), dict(MaxOps=7), {'quick': ['nofin-rel'], 'thorough': ['nofin-dev', 'nofin-rel']}),
 }
 
@@ -57,13 +65,14 @@ def graph_conformance(tier, seed):
         st.append(_random(b, seed, 12 * scale, 500, faultp=0.0, ns=2, np=1, nw=1, maxobjs=8))
         st.append(_random(b, seed + 1000, 12 * scale, 500, faultp=0.02, ns=2, np=1, nw=1, maxobjs=8))
         st.append(_random(b, seed + 2000, 6 * scale, 400, faultp=0.0, ns=3, np=0, nw=0, maxobjs=14))
+        st.append(_random(b, seed + 3000, 8 * scale, 500, faultp=0.01, ns=2, np=0, nw=1, maxobjs=8, auto=1))
     return st
 
 
-GRAPH_PROPS = ['C01', 'C02', 'C03', 'C04', 'C05', 'C06', 'C07', 'C08', 'C09', 'C11', 'C12', 'C13']
+GRAPH_PROPS = ['C01', 'C02', 'C03', 'C04', 'C05', 'C06', 'C07', 'C08', 'C09', 'C11', 'C12', 'C13', 'C14', 'C15']
 
 
-GRAPH_ENGINES = ['core', 'pin', 'nofin', 'fault', 'faultnofin', 'weak', 'weaknofin']
+GRAPH_ENGINES = ['core', 'pin', 'nofin', 'fault', 'faultnofin', 'weak', 'weaknofin', 'auto', 'cyc']
 
 
 def plan(pid, tier, seed):
